@@ -17,7 +17,7 @@ ASSUMPTIONS = ['e > t', 'degree of an undirected node with a self-loop: networkx
                'dn.non_neighbors on directed graphs: non-successors (networkx) or nodes that are neither predecessor nor successor accepted',
                'accumulative presence as stated in C08']
 TECHNIQUE = 'differential PBT: every query of every generated state vs networkx on the static graph of the reference model'
-BUDGET = {'quick': {'cases': 12000, 'seconds': 50}, 'thorough': {'cases': 200000, 'seconds': 560}}
+BUDGET = {'quick': {'cases': 9000, 'seconds': 50}, 'thorough': {'cases': 200000, 'seconds': 560}}
 KINDS = ['add', 'add', 'add', 'add', 'add_from', 'path', 'star', 'cycle', 'node', 'node', 'nodes_from', 'recip']
 
 NB = st.lists(st.lists(st.integers(0, 7), min_size=0, max_size=4, unique=True), min_size=2, max_size=2)
@@ -30,7 +30,8 @@ def strategy(tier):
 
 def run_case(case, rec):
     d = Driver(case)
-    for op in case['ops']:
+    half = len(case['ops']) // 2
+    for i, op in enumerate(case['ops']):
         r = d.step(op)
         if d.desync:
             rec.note('accumulative bulk desync (case dropped)')
@@ -38,6 +39,10 @@ def run_case(case, rec):
         if r['actual'] != r['expected']:
             rec.note('outcome_mismatch(left to C01)')
             return False
+        if i + 1 == half and len(case['ops']) % 2 == 1:
+            # the same object answers the (light) battery in the middle of its history as well
+            common.check_queries(rec, 'C02', d.G, d.M, d.nodes, ctx=case['cls'] + ' (mid-history)', light=True)
+            rec.classify('queried mid-history too')
     G, M = d.G, d.M
     pool = d.nodes + common.UNKNOWN
     nbs = [[pool[i % len(pool)] for i in nb] for nb in case['nb']]
